@@ -1,6 +1,7 @@
 import Amgcl.Driver.Util
 import Amgcl.Model.SmoothedAggregation
 import Amgcl.Model.ParamGlue
+import Amgcl.Model.CoarseningChecks
 /-!
 handlers for the coarsening models (C04)
 
@@ -11,6 +12,8 @@ aggr_pointwise eps b min_aggregate A     -> count id[] strong[] | empty_level | 
 aggr_ptent     naggr id[]                -> CRS
 aggr_transfer  eps b A                   -> CRS (P) | empty_level | precondition
 sa_transfer    lvl eps b relax est A     -> CRS (P) | empty_level | precondition
+rs_rowsum      eps do_trunc eps_trunc A P          -> verdict nrows      (V-grade predicate on the implementation's P)
+ptent_ns       bs cols tol naggr id[] B[] P Bc[]   -> shape repro ortho  (V-grade predicates, null-space branch)
 ```
 `eps`, `relax` are the exact rational values of the `float` parameters; `lvl` is the number of earlier
 `transfer_operators` calls on the same `smoothed_aggregation` object (each successful one halves `eps_strong`).
@@ -80,6 +83,24 @@ def handle (op : String) (args : List String) : Option String :=
           if squareWf A && b ≥ 1 && (ratToF32 rlx).isSome then
             showOutcome (fun t => showCRS t.P) (smoothedAggregationTransfer qabs prm A) else badInput
         | none => badInput
+  | "rs_rowsum" => withArgs (do
+        let e ← pRat; let tr ← pBool; let et ← pRat; let A ← pCRS; let P ← pCRS
+        pure (e, tr, et, A, P)) args
+      fun (e, _, et, A, P) =>
+        if squareWf A && (ratToF32 e).isSome && (ratToF32 et).isSome then
+          let res := Coarsening.rsRowSumCheck qabs (Rat.divInt 1 ((2 ^ 51 : Nat) : Int)) e A P
+          joinSp [showBool res.1, toString res.2]
+        else badInput
+  | "ptent_ns" => withArgs (do
+        let bs ← pNat; let cols ← pNat; let tol ← pRat; let na ← pNat; let id ← pIntVec; let B ← pVec
+        let P ← pCRS; let Bc ← pVec
+        pure (bs, cols, tol, na, id, B, P, Bc)) args
+      fun (bs, cols, tol, na, id, B, P, Bc) =>
+        if bs ≥ 1 && cols ≥ 1 && B.size == id.size * cols && P.wfb && P.ncols == (na / bs) * cols
+            && Bc.size == (na / bs) * cols * cols && id.all (fun v => v < (na : Int)) then
+          joinSp [showBool (Coarsening.ptentShape bs cols id P), showBool (Coarsening.reproducesB tol cols id P Bc B),
+                  showBool (Coarsening.orthonormalCols tol P)]
+        else badInput
   | _ => none
 
 end Amgcl.Driver.Coarsening
